@@ -12,8 +12,8 @@ func verifC39bit(b []byte, k int) bool { return b[k/8]&(1<<uint(k%8)) != 0 }
 // needed behaves as a boolean array of length l under Set/Unset/SetBytes/
 // UnsetBytes, observed at an arbitrary index k < l; Equals() <=> all l bits set.
 func VerifC39_Ops() {
-	maxNeed := zzverif.Param("maxbytes", 3, 8)
-	steps := zzverif.Param("steps", 2, 3)
+	maxNeed := zzverif.Param("maxbytes", 3, 6)
+	steps := zzverif.Param("steps", 2, 2)
 	zzverif.Unwind(1200)
 	need := zzverif.Choose("need", maxNeed) + 1 // bytes needed for l bits
 	l := zzverif.Int("l")
